@@ -17,7 +17,12 @@ leg B  class vs `PDE(eq.expression(s))` (1e-5: six printed digits) for ALL class
 leg C  generic `PDE` right-hand sides and `ReactionDiffusionPDE`: bc_ops, explicit t, consts
        (numbers and fields), coordinate dependence, dot/inner/integral, nested operators,
        multi-field collections (scalar and vector fields): numpy vs numba vs model
-       (`PdeVerif.PDEs.rhsValuePde`, which also does the bc_ops look-up)."""
+       (`PdeVerif.PDEs.rhsValuePde`, which also does the bc_ops look-up).
+time   (gap round) every model evaluation of legs A, B, C goes through the TIME-PARAMETERISED definitions of
+       `Model/PDEsTime.lean` (`*RateAt`, `rhsValueAt`, `rhsValuePdeAt`): one request per case carries both times and the
+       operators / tables measured at each; the model builds time-dependent operators (`sampled`), selects the instance of
+       the time it evaluates at and binds the symbol `t` itself.  Sub-leg `values-operator`: KPZ / K-S rate with py-pde's
+       own gradient_squared of the state as a {"values"} operator (`constOp`) = numpy rate = rate with `sumSquares`."""
 import math
 import os
 import re
@@ -45,6 +50,7 @@ REQUIRED_THEOREMS = [
     "values_operator_sound_ks", "rhsValueF_constOp", "sumSquares_nonneg", "sumSquares_eq_zero_iff",
     "sumSquares_homogeneous", "sampled_head", "sampled_second", "rhsValueF_env_congr", "rhsValueF_unused_field",
     "grouped_text_vs_split_class_gap_at", "diffusionRateAt_time_dependence", "eval_env_congr",
+    "values_operator_sound_inner", "values_operator_not_sound_outer",
 ]
 EXTRA_PROP_FILES = ["C10b"]
 RULE = ("cases = (equation class or generic right-hand-side program, parameters incl. the expr_prod branch values "
